@@ -9,8 +9,26 @@ def line(kind, max_size, min_idle, idle_ms, senders, sends, faults, schedule):
 
 
 def multiset_perms(tokens):
-    """all distinct orders of a multiset of tokens"""
-    return sorted(set(itertools.permutations(tokens)))
+    """all distinct orders of a multiset of tokens (generated directly, not by filtering n! permutations)"""
+    from collections import Counter
+    cnt = Counter(tokens)
+    keys = sorted(cnt)
+    out = []
+
+    def rec(prefix, left):
+        if left == 0:
+            out.append(tuple(prefix))
+            return
+        for k in keys:
+            if cnt[k]:
+                cnt[k] -= 1
+                prefix.append(k)
+                rec(prefix, left - 1)
+                prefix.pop()
+                cnt[k] += 1
+
+    rec([], len(tokens))
+    return out
 
 
 def sender_tokens(kind, senders, sends):
